@@ -48,6 +48,11 @@ def units(tier, seed):
     for k, eng in enumerate(shapes_h1() + shapes_h2()[::2]):
         for mx in (False, True):
             descs.append(dict(engines=list(eng), gens=2, maximize=mx, obj="tiny_offset", Mh=4, seed=s, sprout={"kind": ("simple", "nbc")[k % 2], "L": 2}))
+    # unattended runs (tree.run(), no accessor is read before the end), with roots that do not carry their best forward
+    for k, eng in enumerate([("MWEA", "DE"), ("LHS", "SEA"), ("SOB", "CMAf"), ("MWEA", "SEA", "DE"), ("LHS", "DE", "CMAf"), ("SEA", "DE"), ("SOB",), ("MWEA",), ("SHADE", "SOB", "DE"), ("GA", "LHS", "SEA")]):
+        for mx in (False, True):
+            descs.append(dict(engines=list(eng), gens=1 + k % 2, maximize=mx, obj=objs[k % 3], Mh=5, seed=s + k, drive="run", unattended=True, kelites=(1, 0)[k % 2],
+                              gsc=({"kind": "metaepoch", "n": 5}, {"kind": "evals", "n": 150})[k % 2], sprout={"kind": ("simple", "nbc")[k % 2], "L": 2}, box=("B_asym", "B_sym")[k % 2]))
     us = [{"kind": "run", "descs": c} for c in chunks(descs, 12)]
     nmax = 120 if tier == "quick" else 300
     for box in ("B_asym", "B_dec"):
@@ -113,6 +118,8 @@ def finish(res, tier):
         raise Vacuous("best-individual clauses hardly exercised")
     if res.flags["run with NaN objective values"] < 50:
         raise Vacuous("NaN-valued objective hardly exercised")
+    if res.flags["unattended run judged at its end"] < 10:
+        raise Vacuous("unattended runs not exercised")
     if res.extra["budget pairs compared"] < 1000:
         raise Vacuous("budget pairs not compared")
     if res.configs_completed < res.configs:
